@@ -1,4 +1,5 @@
 import DarkluaModel.C05.Lemmas
+import DarkluaModel.C05.Graph
 /-!
 # C05 — a bundle behaves like the program with its modules required normally: property theorems
 
@@ -119,5 +120,85 @@ theorem accessor_memoises (ρ : ExtOracle N) (n : Nat) (M name : String) (locals
       exact fcache
   · intro m args' σ'' h
     exact accessor_cached ρ m M name locals cM tM tC σ.tables.length (first vs) args' σ'' h
+
+/-! ## The inlining walk (`RequirePathProcessor`) -/
+
+section graph
+variable {P : Type} [DecidableEq P]
+
+/-- **Termination**: the recursion budget `|G| + 1` used by `inlineAll` (the function the driver
+runs) is never exhausted, on any finite graph — cyclic or not, with missing or malformed files:
+the model's `fuel` error never occurs, so `inlineAll` is the total function it should be. -/
+theorem inline_total (G : Graph P) (entrySites : List (Site P)) :
+    Err.fuel ∉ (inlineAll G entrySites).errors := by
+  have key := inlineRequire_errs G (fun e => e ≠ .fuel) (fun n stack _ => free G stack < n)
+    (by intro q; simp) (by intro q; simp) (by intro q; simp) (by intro q; simp) (by intro q; simp) (by intro q; simp)
+    (by intro stack p h; omega)
+    (by intro n stack p i _ _; simp)
+    (by
+      intro n stack p sites ret hc hidx hget s _ q _
+      have := free_lt G stack p _ (indexOf?_none_not_mem p stack hidx) hget
+      omega)
+  have hv := visit_errs (fun e => e ≠ .fuel) (by intro q; simp) (inlineRequire G (G.length + 1) []) true entrySites
+    (fun s _ q _ _ => key (G.length + 1) [] q (by rw [free_nil]; omega)) St.empty (by intro e he; simp [St.empty] at he)
+  intro hmem
+  exact hv _ hmem rfl
+
+/-- **Cycle reports are genuine**: every `cyclic` error collected by the walk names a list of files
+`c, …, c` in which each file requires the next one, and every file on it is reachable from the
+entry. -/
+theorem inline_cyclic_sound (G : Graph P) (entrySites : List (Site P)) (ps : List P)
+    (h : Err.cyclic ps ∈ (inlineAll G entrySites).errors) :
+    GoodCycle G (Reach G entrySites) ps := by
+  let R := Reach G entrySites
+  have key := inlineRequire_errs G (fun e => ∀ ps, e = .cyclic ps → GoodCycle G R ps)
+    (fun _ stack p => IsPath G (stack ++ [p]) ∧ ∀ x ∈ stack ++ [p], R x)
+    (by intro q ps h; cases h) (by intro q ps h; cases h) (by intro q ps h; cases h) (by intro q ps h; cases h)
+    (by intro q ps h; cases h) (by intro q ps h; cases h)
+    (by intro stack p _ ps h; cases h)
+    (by
+      intro n stack p i hc hidx ps' hps
+      cases hps
+      obtain ⟨t, ht⟩ := indexOf?_some_drop p stack i hidx
+      have hpath : IsPath G ((stack ++ [p]).drop i) := isPath_drop G _ i hc.1
+      have hlen : i ≤ stack.length := by
+        by_cases hi : i ≤ stack.length
+        · exact hi
+        · have : stack.drop i = [] := List.drop_eq_nil_of_le (by omega)
+          rw [this] at ht; cases ht
+      have hdrop : (stack ++ [p]).drop i = stack.drop i ++ [p] := by
+        rw [List.drop_append_of_le_length hlen]
+      rw [hdrop] at hpath
+      refine ⟨hpath, ⟨p, t, by rw [ht]⟩, ?_⟩
+      intro x hx
+      apply hc.2
+      rcases List.mem_append.mp hx with hx | hx
+      · exact List.mem_append_left _ (List.mem_of_mem_drop hx)
+      · exact List.mem_append_right _ hx)
+    (by
+      intro n stack p sites ret hc _ hget s hs q hq
+      have he : Edge G p q := ⟨sites, ret, hget, s, hs, hq⟩
+      refine ⟨isPath_snoc G stack p q hc.1 he, ?_⟩
+      intro x hx
+      rcases List.mem_append.mp hx with hx | hx
+      · exact hc.2 x hx
+      · have : x = q := by simpa using hx
+        subst this
+        exact Reach.step (hc.2 p (by simp)) he)
+  have hv := visit_errs (fun e => ∀ ps, e = .cyclic ps → GoodCycle G R ps) (by intro q ps h; cases h)
+    (inlineRequire G (G.length + 1) []) true entrySites
+    (fun s hs q hq hsh => key (G.length + 1) [] q
+      ⟨trivial, by
+        intro x hx
+        have : x = q := by simpa using hx
+        subst this
+        refine Reach.root ⟨s, hs, ?_, hq⟩
+        cases hb : s.shadowed
+        · rfl
+        · simp [hb] at hsh⟩)
+    St.empty (by intro e he; simp [St.empty] at he)
+  exact hv _ h ps rfl
+
+end graph
 
 end DarkluaModel.C05
